@@ -33,7 +33,7 @@ fn facts_for(rec: (Kind, u32, &str), mask: u32, ids: &[u32]) -> Vec<AnnFact> {
 
 /// The annotation groups derived from one subset S of the nodes:
 /// g1 <- S, g2 <- complement(S), o1 <- rot1(S), r1 <- rot2(S), r2 <- every term, plus bare g3, o2, r3, r4
-/// (totals: 3 genes, 2 OMIM, 4 ORPHA - three different N, none of them 1).
+/// and four bare records of minimal size (totals: 5 genes, 3 OMIM, 5 ORPHA).
 pub struct AnnGroups {
     pub g1: Vec<AnnFact>,
     pub g2: Vec<AnnFact>,
@@ -53,7 +53,18 @@ impl AnnGroups {
             o1: facts_for(O1, rot(s, 1, n), ids),
             r1: facts_for(R1, rot(s, 2, n), ids),
             r2: facts_for(R2, full, ids),
-            bare: vec![Facts::ann(G3.0, G3.1, G3.2, None), Facts::ann(O2.0, O2.1, O2.2, None), Facts::ann(R3.0, R3.1, R3.2, None), Facts::ann(R4.0, R4.1, R4.2, None)],
+            // ... and records of minimal size: in the binary format a bare gene with a one- or two-byte symbol is a
+            // 14- / 15-byte record (shorter than any disease record), a bare disease with an empty name a 16-byte one
+            bare: vec![
+                Facts::ann(G3.0, G3.1, G3.2, None),
+                Facts::ann(O2.0, O2.1, O2.2, None),
+                Facts::ann(R3.0, R3.1, R3.2, None),
+                Facts::ann(R4.0, R4.1, R4.2, None),
+                Facts::ann(Kind::Gene, 3434, "G", None),
+                Facts::ann(Kind::Omim, 600_034, "", None),
+                Facts::ann(Kind::Gene, 3535, "G5", None),
+                Facts::ann(Kind::Orpha, 8181, "", None),
+            ],
         }
     }
     /// g1 facts in the given order first, then the other groups in canonical order
@@ -67,6 +78,7 @@ impl AnnGroups {
         v.push(self.bare[2].clone());
         v.extend(self.r2.iter().cloned());
         v.push(self.bare[3].clone());
+        v.extend(self.bare[4..].iter().cloned());
         v
     }
     /// round-robin interleaving of all groups
